@@ -5,6 +5,7 @@
 ** scenario to count (one-time lazy allocations of libc do not repeat).  LeakSanitizer prints the allocation stack.
 */
 #include "vh.h"
+#include "foreign.h"
 #include <dirent.h>
 #include "mutate.h"
 
@@ -312,6 +313,39 @@ int main (int argc, char **argv)
 			}
 		else if (vh_shard == 0) vh_note ("SD2 seed file could not be produced (resource fork %ld bytes, data %ld bytes)", rl, dl) ;
 		free (rs) ; free (dt) ;
+		}
+	/* F. files as other programs write them (harness/foreign.h): whole, every chunk x every mutation, random mutants; read and read/write */
+	{	int fi ; char key [200] ;
+		for (fi = 0 ; fi < foreign_count () ; fi++)
+		{	unsigned char *b = NULL ; long n = 0 ; const char *nm = foreign_make (fi, &b, &n) ; CORP cb ; int mi, mk, k, md ;
+			cb.d = b ; cb.len = n ; cb.ch = 1 ; cb.meta = 2 ;
+			cb.format = (!memcmp (b, "FORM", 4) ? SF_FORMAT_AIFF : !memcmp (b, "caff", 4) ? SF_FORMAT_CAF : (!memcmp (b, ".snd", 4) || !memcmp (b, "dns.", 4)) ? SF_FORMAT_AU : SF_FORMAT_WAV) | SF_FORMAT_PCM_16 ;
+			for (k = 0 ; k < (vh_thorough ? 1500 : 60) ; k++)
+			{	INPUT in ; MEMF mm ; char desc [300] ;
+				if (!vh_case ("foreign file %s mutant %d", nm, k)) continue ;
+				if (k == 0) { mv_from (&mm, b, (size_t) n) ; snprintf (desc, sizeof (desc), "unmodified") ; } else mutate (&mm, &cb, desc, sizeof (desc)) ;
+				if (mm.len > 2000000) { mv_free (&mm) ; continue ; }
+				in.d = mm.d ; in.len = (long) mm.len ; in.route = (k % 4 == 3) ; in.mode = (k % 3 == 0) ? SFM_RDWR : SFM_READ ;
+				snprintf (key, sizeof (key), "C16|leak|foreign-input|%s|%s", nm, in.mode == SFM_RDWR ? "rdwr" : "read") ;
+				vh_distinct (vh_fnv (vh_fnv (0, mm.d, (size_t) mm.len), &in.mode, 4) ^ (uint64_t) in.route ^ 0xF0) ; vh_stat ("foreign_inputs", 1) ;
+				if (k == 0) vh_sample ("foreign file %s (%ld bytes): unmodified, %d mutants and every chunk x %d mutations, opened SFM_READ and SFM_RDWR, heap/fd/tmp accounted", nm, n, vh_thorough ? 1499 : 59, MUTATE_MARKER_KINDS) ;
+				account (key, scen_input, &in, 0) ;
+				mv_free (&mm) ;
+				}
+			for (mi = 0 ; mi < 40 ; mi++) for (mk = 0 ; mk < MUTATE_MARKER_KINDS ; mk++)
+			{	INPUT in ; MEMF mm ; char desc [200] ;
+				if (!vh_case ("foreign file %s chunk %d mutation %d", nm, mi, mk)) continue ;
+				if (!mutate_marker (&mm, &cb, mi, mk, cb.len, desc, sizeof (desc))) continue ;
+				for (md = 0 ; md < 2 ; md++)
+				{	in.d = mm.d ; in.len = (long) mm.len ; in.route = 0 ; in.mode = md ? SFM_RDWR : SFM_READ ;
+					snprintf (key, sizeof (key), "C16|leak|foreign-marker-mutation|%s|%s", nm, md ? "rdwr" : "read") ;
+					vh_distinct (vh_fnv (vh_fnv (0, mm.d, (size_t) mm.len), &md, 4) ^ 0xF2) ; vh_stat ("foreign_chunk_mutations_run", 1) ;
+					account (key, scen_input, &in, 0) ;
+					}
+				mv_free (&mm) ;
+				}
+			free (b) ;
+			}
 		}
 	rmdir (scratch) ;
 	return vh_finish () ;
